@@ -275,13 +275,13 @@ impl Case {
     }
 }
 
-struct B {
-    w: World,
+pub(crate) struct B {
+    pub(crate) w: World,
     next: u32,
 }
 
 impl B {
-    fn new(rng: &mut Rng) -> B {
+    pub(crate) fn new(rng: &mut Rng) -> B {
         let w = World {
             roots: vec![],
             zones: vec![Zone { apex: ".".into(), recs: vec![] }],
@@ -298,6 +298,7 @@ impl B {
             },
             queries: vec![],
             tags: vec!["depth".into()],
+            fan: None,
         };
         let mut b = B { w, next: 0 };
         let ip = b.ip();
@@ -314,7 +315,7 @@ impl B {
         s.zones = vec![zone.to_string()];
         s.lame = "refused".into();
     }
-    fn add(&mut self, zone: &str, owner: &str, rtype: &str, data: &str) {
+    pub(crate) fn add(&mut self, zone: &str, owner: &str, rtype: &str, data: &str) {
         let r = Rec::new(owner, rtype, data);
         let z = self.w.zone_mut(zone);
         if !z.recs.contains(&r) {
@@ -322,7 +323,7 @@ impl B {
         }
     }
     /// ordinary delegation with in-zone glue; returns the server address
-    fn solid(&mut self, parent: &str, child: &str) -> String {
+    pub(crate) fn solid(&mut self, parent: &str, child: &str) -> String {
         let ip = self.ip();
         let nsn = format!("ns1.{child}");
         self.add(parent, child, "NS", &nsn);
@@ -341,7 +342,7 @@ impl B {
     }
 }
 
-fn tlds(rng: &mut Rng, b: &mut B) -> Vec<String> {
+pub(crate) fn tlds(rng: &mut Rng, b: &mut B) -> Vec<String> {
     let mut tl = vec!["com.", "org.", "net."];
     rng.shuffle(&mut tl);
     let n = rng.urange(1, 2);
